@@ -140,6 +140,56 @@ def oracle(case, line):
                 bad.append(("dht-values-not-exact", "peers taken from r.values are not exactly the leading 6-byte entries"))
         elif w is not None and line == "REJECT":
             bad.append(("dht-valid-reply-rejected", "a canonical DHT reply was rejected by the static-map reader"))
+    elif kind == "PI":
+        if not line.startswith("OK "):
+            return [("crash", "PeerList/PeerInfo pipeline: " + line[:200])]
+        f = parse_kv(line[3:])
+        avail = G.parse_addrs(f["avail"])
+        mx = int(toks[1])
+        bad += check_retained(avail, "available list (known peers)")
+        if len(avail) > mx + sum(1 for t_ in toks if t_ == "I"):
+            bad.append(("cap-exceeded", "available list holds %d addresses, configured maximum is %d" % (len(avail), mx)))
+        if len(set(avail)) != len(avail):
+            bad.append(("duplicate-retained", "available list holds the same address and port twice"))
+        # an address whose PeerInfo was connected from its creation on, and that was never inserted as 'available',
+        # must never be in the available list
+        offered, always_conn, inserted_avail, i = [], {}, set(), 3
+        seen_offer = set()
+        while i < len(toks):
+            o = toks[i]
+            if o == "I":
+                rec = bytes.fromhex(toks[i + 1])
+                a = G.ref_compact(rec, len(rec))[0]
+                offered.append(a)
+                if toks[i + 2] == "1":
+                    inserted_avail.add((a[0], a[1]))
+                i += 3
+            elif o == "S":
+                ip = toks[i + 1]
+                key = (4 if len(ip) == 8 else 6, int(ip, 16))
+                if toks[i + 2] == "1" and key not in seen_offer and key not in always_conn:
+                    always_conn[key] = True
+                elif toks[i + 2] != "1":
+                    always_conn[key] = False
+                i += 4
+            elif o == "N":
+                i += 2
+            elif o == "X":
+                l = G.ref_compact(bytes.fromhex(toks[i + 1]) if toks[i + 1] != "-" else b"", 6)
+                offered += l
+                seen_offer |= {(a[0], a[1]) for a in l if always_conn.get((a[0], a[1])) is not True}
+                i += 2
+            else:
+                l = G.ref_compact(bytes.fromhex(toks[i + 1]) if toks[i + 1] != "-" else b"", 6) + \
+                    G.ref_compact(bytes.fromhex(toks[i + 2]) if toks[i + 2] != "-" else b"", 18)
+                offered += l
+                seen_offer |= {(a[0], a[1]) for a in l if always_conn.get((a[0], a[1])) is not True}
+                i += 3
+        if not set(avail) <= set(offered):
+            bad.append(("invented-address", "available list holds an address that is in no payload"))
+        for a in avail:
+            if always_conn.get((a[0], a[1])) is True and (a[0], a[1]) not in inserted_avail:
+                bad.append(("connected-peer-offered", "an address whose PeerInfo is connected was added to the available list: " + G.show_addr(a)))
     elif kind == "PX":
         if not line.startswith("OK "):
             return [("crash", "PEX pipeline: " + line[:200])]
@@ -160,6 +210,42 @@ def oracle(case, line):
                 offered += G.ref_compact(added, 6)
         if not set(avail) <= set(offered):
             bad.append(("invented-address", "available list holds an address that is in no ut_pex payload"))
+    elif kind == "H2":
+        head, _, st = line.partition(" | ")
+        evs = head.split(";")
+        bodies = [bytes.fromhex(t_) if t_ != "-" else b"" for t_ in toks[2:] if t_ != "~"]
+        if len(evs) != len(bodies):
+            return [("http-events", "number of reported outcomes differs from the number of replies")]
+
+        def verdict(body):
+            """'ok' / 'fail' for bodies the reference decides, None otherwise"""
+            try:
+                tree, _n = G7.ref_decode(body, liberal_istream=True)
+                tree = G7.normalize(tree)
+            except (G7.NoParse, RecursionError):
+                return "fail"
+            if not (isinstance(tree, tuple) and tree[0] == "M"):
+                return "fail"
+            d = dict(tree[1])
+            if b"failure reason" in d:
+                return "fail"
+            if isinstance(d.get(b"warning message"), bytes):
+                return None
+            if b"peers" in d or isinstance(d.get(b"peers6"), bytes):
+                return "ok"
+            return None
+        v = [verdict(b) for b in bodies]
+        names = [e.partition(":")[0] for e in evs]
+        if v and v[0] == "fail" and names[0] != "retry":
+            bad.append(("http-retry-skipped", "a failed first-family reply did not lead to the second-family request: " + evs[0][:80]))
+        if v and v[0] == "ok" and names[0] != "newpeers":
+            bad.append(("http-first-family-lost", "a good first-family reply was not passed on as new peers: " + evs[0][:80]))
+        if len(v) == 2 and None not in v:
+            want = "success" if "ok" in v else "fail"
+            if names[1] != want:
+                bad.append(("http-two-family-verdict", "two replies (%s, %s) ended as %s" % (v[0], v[1], evs[1][:60])))
+            if v == ["ok", "fail"] and evs[1] != "success:-":
+                bad.append(("http-two-family-verdict", "a malformed second reply after a good first one must end the announce as success without further peers"))
     elif kind == "H":
         ev = int(toks[1])
         body = bytes.fromhex(toks[2]) if toks[2] != "-" else b""
@@ -218,6 +304,8 @@ def nontrivial(case, line):
         return any(t in line for t in ("connected:", "success:", "newpeers:", "fail:", "reset"))
     if k == "H":
         return not line.startswith("fail:7061727365")
+    if k == "H2":
+        return "newpeers:" in line or "success:" in line
     if k == "DH":
         return "Q" in line or "e " in line
     if k == "DV":
@@ -241,8 +329,11 @@ def run(rep, tier, seed, replay):
                        "(the existing-PeerInfo branch is a universally quantified parameter of the theorems, constant false in the runs)",
                        "python reference functions in gen/c14.py (ref_compact, ref_normal via the C library's inet_pton, ref_udp) for the oracle",
                        "'never blocks' is checked at run time only: each case runs under a 20 s alarm() watchdog in the harness (HANG kills the process and is reported as a crash)",
-                       "not covered: DhtServer::event_read type checks and ProtocolExtension::parse_ut_pex's static-map decoding "
-                       "(only the peer payload parsers they feed: parse_address_bencode, PeerList::insert_pex_list)"]))
+                       "DHT: a real DhtRouter+DhtServer per DH case, datagrams from scripted loopback sockets, event_read()/event_write() called on the harness thread; "
+                       "the content of replies to dispatched queries is C15's subject (canonicalised to 'Q'); replies/errors without a matching transaction have no observable effect "
+                       "(canonicalised to 'none'); the static-map reader is C07's model sm_read with the real key tables",
+                       "DV cases are a unit-level composition written in the harness (static_map_read_bencode(DhtMessage) + AddressList::parse_address_bencode as DhtAnnounce::receive_peers does; "
+                       "the compact 'nodes' truncation is recomputed by the harness, the real parse_find_node_reply is not reached)"]))
     model = ltv.build_model("C14")
     impl = ltv.build_harness("c14", ["c14.cc"])
     if replay:
@@ -298,5 +389,5 @@ def run(rep, tier, seed, replay):
                    samples=samples, input_distribution=stats, mismatches=mism,
                    exhaustive="UDP header grid (4176 combinations) exhaustive in both tiers; inet_pton strings of length <= 6 over {1,0,:,.,f} exhaustive in thorough")
     rep.assumptions += ["PeerList without PeerInfo entries in the runs (theorems cover any PeerInfo decision function)",
-                        "one tracker connection per UdpRouter; second-family retry of TrackerHttp not exercised (m_next_family = AF_UNSPEC)",
+                        "one tracker connection per UdpRouter; TrackerHttp second-family retry exercised for announce events (H2), not for scrape",
                         "IPv4/IPv6 loopback available to the harness", "classic locale on the stream reader"]
